@@ -170,7 +170,7 @@ def check(case, ctx):
     except DeclarationError as e:
         ctx.skip_undeclarable(None, e)
         return
-    v = values.realize(case["value"])
+    v = substgen.realize(case)
     ctx.label("kind:" + case["kind"])
     if case["kind"] == "dict-subclass":
         # a dict subclass instance stands for its content: the outcome must be that of the equal plain dict
